@@ -232,3 +232,110 @@ def novel_dataset(seed, n_chroms=2, genes_per_chrom=4, chrom_len=60000, annotati
             if pos > chrom_len - 12000:
                 break
     return ds, truth
+
+
+# ---------------------------------------------------------------------------------------------------
+# audit-2 (C04): gene layouts and read sets the random generator above never produces.  Lifted from
+# /tmp/audit2-A/probes/C04/p1_layouts_options.py, coordinates / read numbers drawn from the seed.
+# ---------------------------------------------------------------------------------------------------
+
+LAYOUT_OPTION_SETS = [
+    # (name, extra command line) - options the C04 pipeline oracle never used before the audit-2 round
+    ("plain", []),
+    ("polya_never", ["--polya_requirement", "never"]),
+    ("polya_always", ["--polya_requirement", "always"]),
+    ("stranded_forward", ["--stranded", "forward"]),
+    ("stranded_reverse", ["--stranded", "reverse"]),
+    ("fl_delta0", ["--fl_data", "--delta", "0"]),
+    ("delta20", ["--delta", "20"]),
+    ("matching_loose", ["--matching_strategy", "loose", "--splice_correction_strategy", "all"]),
+    ("matching_exact", ["--matching_strategy", "exact"]),
+    ("no_secondary", ["--no_secondary"]),
+    ("min_mapq20", ["--min_mapq", "20"]),
+]
+
+
+def layout_dataset(seed, n_chroms=2):
+    """-> Dataset with, on every chromosome:
+      A  antisense pair at the very start of the contig (first exon at base 1): a '+' gene, a '-' gene overlapping it, and a
+         NOVEL '+' isoform one of whose introns is annotated only in the '-' gene (-> .nic: annotated introns of either strand)
+      B  reference twins (same intron chain, different 3' ends) + a novel exon-skipping isoform of them
+      C  a gene nested in an intron of a host gene of the other strand, with a novel isoform of the nested gene
+      D  an unannotated locus read on BOTH BAM strands (splice sites canonical on '-')
+      E  an unannotated locus supported by 3 primary alignments + SECONDARY alignments of reads whose primary is elsewhere
+      G  a non-canonical unannotated locus
+      F  an unannotated locus whose last exon ends at the LAST base of the contig"""
+    ds = synth.Dataset(seed)
+    rng = ds.rng
+    n = [0]
+
+    def reads(chrom, ex, strand, k, tails=True, flag=None, mapq=60):
+        for _ in range(k):
+            e = list(ex)
+            j0, j1 = rng.randint(0, 20), rng.randint(0, 20)
+            if strand == "+":
+                j1 = 0
+            else:
+                j0 = 0
+            e[0] = (e[0][0] + j0, e[0][1])
+            e[-1] = (e[-1][0], e[-1][1] - j1)
+            n[0] += 1
+            f = (0 if strand == "+" else 16) if flag is None else flag
+            ds.read_from_exons("q%d" % n[0], chrom, e, flag=f, mapq=mapq, polya=25 if tails and strand == "+" else 0,
+                               polyt=25 if tails and strand == "-" else 0)
+
+    def chain(b, k, lens=(250, 400), gaps=(300, 700)):
+        ex = []
+        for _ in range(k):
+            ln = rng.randint(*lens)
+            ex.append((b, b + ln - 1))
+            b += ln + rng.randint(*gaps)
+        return ex
+
+    L = 90000
+    for c in ["chr%d" % (i + 1) for i in range(n_chroms)]:
+        ds.add_chrom(c, L)
+        # A
+        A = chain(1, 4)
+        Am = [(A[0][0] + rng.randint(50, 120), A[0][1]), A[2], (A[3][0], A[3][1] - rng.randint(20, 100))]
+        ds.add_gene(c, "GAp_" + c, "+", [("TAp_" + c, A)])
+        ds.add_gene(c, "GAm_" + c, "-", [("TAm_" + c, Am)], plant=False)
+        reads(c, A, "+", rng.randint(6, 9))
+        reads(c, Am, "-", rng.randint(6, 9))
+        reads(c, [A[0], A[2], A[3]], "+", rng.randint(7, 10))
+        # B
+        B = chain(12000 + rng.randint(0, 500), 4)
+        B2 = B[:3] + [(B[3][0], B[3][1] + rng.randint(400, 800))]
+        ds.add_gene(c, "GB_" + c, "+", [("TB1_" + c, B), ("TB2_" + c, B2)])
+        reads(c, B, "+", 7)
+        reads(c, B2, "+", 7)
+        reads(c, [B[0], B[2], B2[3]], "+", rng.randint(6, 9))
+        # C
+        b = 25000 + rng.randint(0, 500)
+        H = [(b, b + 300), (b + 6000, b + 6300), (b + 7000, b + 7400)]
+        N = chain(b + 1000, 4, gaps=(400, 600))
+        ds.add_gene(c, "GH_" + c, "+", [("TH_" + c, H)])
+        ds.add_gene(c, "GN_" + c, "-", [("TN_" + c, N)])
+        reads(c, H, "+", 6)
+        reads(c, N, "-", 6)
+        reads(c, [N[0], N[2], N[3]], "-", rng.randint(6, 9))
+        # D
+        D = chain(45000 + rng.randint(0, 500), 3)
+        ds.plant_sites(c, introns_of(D), "-")
+        reads(c, D, "-", 5)
+        reads(c, D, "-", 5, flag=0, tails=False)
+        # E
+        Ex = chain(55000 + rng.randint(0, 500), 3)
+        ds.plant_sites(c, introns_of(Ex), "+")
+        reads(c, Ex, "+", 3)
+        for k in range(rng.randint(4, 7)):
+            ds.read_from_exons("mm%d_%s" % (k, c), c, Ex, flag=256, polya=25)
+            ds.read_from_exons("mm%d_%s" % (k, c), c, [(70000 + 40 * k, 70900)], flag=0)
+        # G
+        Gx = chain(75000 + rng.randint(0, 500), 3)
+        reads(c, Gx, "+", 8, mapq=rng.choice([60, 30, 10]))
+        # F
+        Fx = [(86000, 86300), (87000, 87300), (89000 - rng.randint(0, 300), L)]
+        ds.plant_sites(c, introns_of(Fx), "+")
+        reads(c, Fx, "+", 8, tails=False)
+    return ds
